@@ -61,8 +61,8 @@ HARNESS = ["control/c13_test.go", "control/c13_seq_test.go", "control/c13_ep_tes
 RESET = {"c13_tq": "tq reset", "c13_trk": "trk reset", "c13_krn": "krn reset", "c13_drn": "drn reset", "c13_ep": "ep reset", "c13_epc": "ep reset", "c13_lock": "epc reset", "c13_hp": "hp reset", "c13_ib": "ib reset"}
 
 
-# generator floors (quick tier; thorough is far above): a run that does not reach these input classes is not
-# evidence -> exit 2
+# generator floors (applied in every tier; the values are sized for quick, thorough is far above): a run that
+# does not reach these input classes is not evidence -> exit 2
 FLOORS = {
     "tq.digest.overflow>256": 100, "tq.overflow.sliceShrunk": 2, "tq.schedules.compacting.armed": 2, "tq.digest.claimed": 500,
     "tq.stop.convoy.afterClaimCAS": 200, "tq.stop.acquire.beforeCompareAndDelete": 2, "tq.stop.acquire.slowBeforeLoadRefs": 50,
@@ -71,7 +71,7 @@ FLOORS = {
     "krn.release.lastOwner": 100, "krn.release.sharedTupleSurvives": 15, "krn.transfer.shared": 15, "krn.transfer.distinct": 15,
     "ep.goc.hit": 300, "ep.goc.err-failed": 40, "ep.split.inval": 100, "ep.split.inval.opAfterBump": 100,
     "ep.split.create": 80, "ep.split.create.invalInside": 80, "ep.split.janitor": 30, "ep.split.janitor.opBeforeClose": 30,
-    "ep.write.err.fail": 40, "ep.reply": 200, "ep.track": 100,
+    "ep.write.err.fail": 40, "ep.goc.notPacketConn.dialled": 20, "ep.reply": 200, "ep.track": 100,
     "hp.outcome.reused": 200, "hp.outcome.dialled": 200, "hp.pkt.withWriteFailures": 100, "hp.kill": 30, "hp.inval": 20, "hp.seq.healthAwareGroup": 20,
     "krn.window": 60, "krn.coreClose": 5, "krn.opThroughClosedCore": 20,
     "ep.tdone": 100, "ep.split.create.tdoneInside": 15, "ep.split.create.anyOpAfterPublish": 60, "ep.resetpool": 40,
@@ -187,11 +187,13 @@ def run(ctx):
         "Go runtime: goroutine scheduling fairness, channel / sync.Map / sync.Mutex / atomic semantics as assumed by the model's atomic steps; sync.Pool modelled as a bag (Get = any element or a fresh channel)",
         "testing/synctest (virtual time and quiescence detection for the schedule replays and the pool's timers)",
         "the `verif` yield points (control/verif_hooks_on.go) park goroutines only between the shared-memory accesses the model treats as separate steps; segments between two yield points with more than one access are listed in design_notes/C13.md",
-        "fake dialers / transport conns / reply handlers of the harness stand for real proxies and sockets; kernel conn-state deletes are observed as BeginRelease results (no BPF map in the sandbox)",
+        "fake dialers / transport conns / reply handlers of the harness stand for real proxies and sockets; the kernel conn-state map is a real eBPF hash map created with ebpf.NewMap (needs CAP_BPF; without it the check exits 2 with HARNESS-ENV) driven through the production ReleaseUdpConnStateTuples / BpfMapBatchDelete; the ingress-batch reader is the production one on a fake batch socket",
     ]
     ctx.assumptions = [
         "task pool Close/Reset and panicking tasks are outside the property's quantifier and not modelled",
-        "endpoint pool: operations are modelled as atomic (sequential specification); two concurrency windows (concurrent first packets, retire vs re-creation) are replayed and compared in linearisation order; direct (non-proxy) dialers only",
+        "endpoint pool: operations are modelled as atomic (sequential specification) plus the split steps of invalidation, retire, creation (before / after publish) and the janitor's remove->close window, in which the harness parks ONE goroutine at a time and issues other operations; the release window of ReleaseUdpConnStateTuples is stepped the same way; two further windows (concurrent first packets, retire vs re-creation) and the lock structure of GetOrCreate for one key are replayed on the real clock and compared in linearisation order; two half-way calls at once are not generated; direct (non-proxy) dialers only",
+        "handlePkt is executed with sniffing switched off for the packet, an empty sniffed domain, user-defined outbounds and one healthy dialer; MaxRetry and the sniff-eligible / direct-dispatch port sets are read off the code and handed to the model (tuning constants, not part of the property)",
+        "same_flow_same_endpoint is stated for packets of a flow whose endpoint was dialled for that destination (Carries); a source-only endpoint dialled for another destination does not bind a flow that later becomes destination-bound (design note, reading R1), and with scope-sensitive routing the source-only key carries outbound/mark as well (R2)",
         "tuple tracker theorems assume the client discipline (release/forget only what was retained), which the endpoint model follows",
     ]
     ctx.prove(["DaeVerif.C13.Props"], ["DaeVerif.C13.Props"], ["DaeVerif/C13/*.lean"], extra_targets=["c13drv"])
